@@ -22,14 +22,14 @@ import (
 //	key   'f' key          value varint(version) bytes(value)
 //	key   'm' "storage_version"   value "1.1.0-<version>"
 type rawNode struct {
-	leaf        bool
-	h           int64
-	sz          int64
-	key, val    []byte
-	hash        []byte
-	l, r        model.NodeKey
-	marker      string // "" | "empty" | "ref"
-	ref         model.NodeKey
+	leaf     bool
+	h        int64
+	sz       int64
+	key, val []byte
+	hash     []byte
+	l, r     model.NodeKey
+	marker   string // "" | "empty" | "ref"
+	ref      model.NodeKey
 }
 
 var errShort = errors.New("truncated")
